@@ -394,6 +394,15 @@ def m_mutex_unlock(I, st, fr, n, this, args, an):
     return [(st, VOID)]
 
 
+def _havoc_monitor(st, cv):
+    # while blocked, other threads may change every field of the monitor object
+    if cv[1]:
+        parent = cv[1][:-1]
+        for k in list(st.mem.keys()):
+            if k[0] == cv[0] and k[1][:len(parent)] == parent and len(k[1]) > len(parent) and k[1][-1] not in ('$dyn', '$mutex', '$owns'):
+                st.mem[k] = TOP
+
+
 def m_cv_wait(I, st, fr, n, this, args, an):
     cv = (this[1], this[2]) if this[0] == 'p' else ('?', ())
     lk = args[0] if args else None
@@ -403,12 +412,31 @@ def m_cv_wait(I, st, fr, n, this, args, an):
         if m is not None:
             mutex = (m[1], m[2])
     I.emit('cv_wait', st, node=n, cv=cv, mutex=mutex, held=lockset(st), has_pred=len(args) > 1)
-    # while blocked, other threads may change every field of the monitor object
-    if cv[1]:
-        parent = cv[1][:-1]
-        for k in list(st.mem.keys()):
-            if k[0] == cv[0] and k[1][:len(parent)] == parent and len(k[1]) > len(parent) and k[1][-1] not in ('$dyn', '$mutex', '$owns'):
-                st.mem[k] = TOP
+    if len(args) > 1 and args[1][0] == 'opaque' and args[1][1] == 'lambda' and args[1][2] in I.prog.functions:
+        # wait(lock, pred)  ==  while (!pred()) wait(lock);   the lambda's `this` is the enclosing object
+        lam = I.prog.functions[args[1][2]]
+        outer_this = st.mem.get(fr.this) if fr.this is not None else None
+        out = []
+
+        def pred_true(s):
+            res = []
+            for s2, v in I.inline(lam, s, fr, n, outer_this, [], []):
+                tv = truth(v, s2.sym) if is_int(v) else None
+                if tv is True or tv is None:
+                    res.append(s2)
+            return res
+        # already satisfied: no blocking; otherwise block (others may change the monitor), then the predicate holds
+        for s2, v in I.inline(lam, st.copy(), fr, n, outer_this, [], []):
+            tv = truth(v, s2.sym) if is_int(v) else None
+            if tv is True:
+                out.append((s2, VOID))
+                continue
+            blocked = s2
+            _havoc_monitor(blocked, cv)
+            for s3 in pred_true(blocked):
+                out.append((s3, VOID))
+        return out
+    _havoc_monitor(st, cv)
     return [(st, VOID)]
 
 
